@@ -16,7 +16,7 @@ CHECKS = {
  "C08": ("runtime monitor: every enabled regionprops value vs. plain numpy and vs. two from-scratch computations (whole frame, node's own mask alone) after every call; feature toggles, scripted stale-value scenario, primitives", "all value comparisons agreed on the observed states", "2-D anisotropic perimeter/circularity excluded (scikit-image raises NotImplementedError); values judged only while their feature is enabled"),
  "C09": ("runtime monitor: every edge IoU vs. numpy overlap after every call + differential bulk recomputation on a deep copy", "all edge comparisons (skip and consecutive, bulk and incremental) agreed", "values judged only while iou is enabled"),
  "C10": ("reference-model monitor (set of enabled keys) over sessions mixing enable/disable with edits; value references of C04/C05/C08/C09", "registry, activation, values after recomputation, frozen disabled values, KeyError/ValueError clauses held on the observed sequences", "track_id toggled only in edit-free windows; lineage_id also switched off alone while edits run"),
- "C11": ("shim-level monitor on the raise path of every top-level user action: deep state before/after + emission count; generated sessions plus the repository's own test-suite as workload (pytest plugin)", "every observed refusal (all raise sites reached) left the deep state unchanged and emitted nothing", "any exception from a user-action constructor counts as refusal; paint driver restores exactly the painted pixels"),
+ "C11": ("shim-level monitor on the raise path of every top-level user action: deep state before/after + emission count; generated sessions plus the repository's own test-suite as workload (pytest plugin)", "every observed refusal (all raise sites reached) left the deep state unchanged and emitted nothing, except the one recorded finding (known_findings.json, DESIGN.md 8.6: lineage ids of a component that already carried several lineage ids), which is re-observed on every run and printed as KNOWN-FINDING", "any exception from a user-action constructor counts as refusal; paint driver restores exactly the painted pixels"),
  "C12": ("differential oracle on generated tables/GEFF stores incl. malformed variants, through the real importers", "all well-formed imports reproduced the source row by row; all malformed variants raised ValueError", "GEFF malformations are written into the zarr arrays directly; invalid supplied track ids are not judged"),
  "C13": ("icontract postcondition on the real relabel_segmentation + end-to-end import compared with an element-wise expected array", "all generated (time, seg id) -> node id assignments produced the expected array and a consistent graph shift", "each (time, seg id) referenced by at most one node"),
  "C14": ("round-trip oracle on session end states through the real exporters/importers (CSV x2 headers, GEFF, internal)", "all observed states survived all routes with equal nodes, edges, times, positions, track ids, loaded features, segmentation, scale, registry", "explicit corresponding name maps; an import refused by the importer's one-pixel sample check is excused only if some node's centroid pixel really lies outside its mask in the written state; CSV cannot tell '' / NaN from a missing value"),
@@ -89,7 +89,7 @@ def main():
         },
         "engines": [{"name": "fv", "path": "fv/", "serves_properties": sorted(CHECKS), "kind_free_text": "runtime monitoring: shim on the real classes (call/return events, nesting depth, history registrations, refresh emissions, primitive applications), session driver with hostile generated workloads, invariant monitors at quiescent points, reference-model monitors, offline trace checkers, icontract postconditions on pure functions"}],
         "checks": checks,
-        "notes": "Repairs of genuine defects are unguarded 'fix:' commits in /repo, listed in known_findings.json (status fixed). No property is left to a different technique.",
+        "notes": "Repairs of genuine defects are unguarded 'fix:' commits in /repo, listed in known_findings.json (status fixed); one genuine defect is recorded there as status known (C11, DESIGN.md 8.6). No property is left to a different technique.",
         "not_applicable": [],
     }
     (V / "MANIFEST.json").write_text(json.dumps(m, indent=1) + "\n")
